@@ -25,6 +25,10 @@ oracle      generated trees (1..40 entries) x argument sets (plan, plan --dry-ru
                 at the start of a line: `ambiguity/cross_file_context.rs` (which legitimately looks at the other files
                 of the same extension, keyed by the word before the hit) never contributes, so a hunk is a function of
                 its own file, the terms and the options.  It is not applied to the general trees of (b).
+            (d) several search roots: `plan S R --dry-run PATHS…` with 2..5 explicit roots (each holding directories of equal
+                depth that are planned for renaming), permuted, nested, repeated and overlapping roots: the full plan
+                document INCLUDING THE ORDER of `paths` must be equal across >= 6 separate processes per thread count
+                (a per-process hash seed shows with one thread already).
 correspond  the abstract trace of each command vs the effect list of the Lean program (`c14prog`).
 """
 import concurrent.futures
@@ -342,6 +346,70 @@ def confusable_case(tree, args, thread_counts, repeats):
     return None
 
 
+# ------------------------------------------------------------------------------------------------
+# several explicit search roots
+
+def multiroot_tree(rng, sw):
+    """2..5 top-level roots, each with directories AT THE SAME DEPTH whose names carry the term (so the planner's order
+    — directories by depth — ties between them), files with the term in name and content, and a nested sub-root.
+    Returns (tree, list of PATHS argument lists incl. overlapping roots)"""
+    S = {st: gen.render(st, sw) for st in ("snake", "camel", "kebab", "pascal")}
+    n = rng.randint(2, 5)
+    tree = {}
+    roots = []
+    for i in range(n):
+        r = f"root{i}"
+        roots.append(r)
+        tree[r] = ("d", 0o755)
+        for j in range(rng.randint(1, 3)):
+            dn = f"{r}/{S[rng.choice(['snake', 'kebab', 'camel'])]}_{i}{j}"
+            tree[dn] = ("d", 0o755)
+            tree[f"{dn}/inner_{S['snake']}.txt"] = ("f", f"{S['snake']} in {i}{j}\n{S['camel']}();\n".encode(), 0o644)
+        tree[f"{r}/sub"] = ("d", 0o755)
+        tree[f"{r}/sub/{S['snake']}_deep"] = ("d", 0o755)
+        tree[f"{r}/sub/{S['snake']}_deep/leaf.txt"] = ("f", f"use {S['pascal']};\n".encode(), 0o644)
+        tree[f"{r}/{S['kebab']}-file{i}.md"] = ("f", f"# {S['pascal']}\n".encode(), 0o644)
+        tree[f"{r}/plain{i}.txt"] = ("f", f"let {S['snake']} = {S['camel']};\n".encode(), 0o644)
+    order = list(roots)
+    rng.shuffle(order)
+    argsets_ = [roots, order,
+                roots + [f"{roots[0]}/sub"],                 # nested root after its parent
+                [f"{roots[-1]}/sub"] + roots,                # nested root before its parent
+                roots + [roots[0]],                          # a root given twice
+                [".", roots[1]]]                             # the working directory plus one of its children
+    return tree, argsets_
+
+
+def multiroot_case(tree, args, thread_counts, repeats):
+    """the FULL plan document (matches, the ORDER of `paths`, stats) of every process run must equal the first run's"""
+    with common.scratch() as d:
+        common.materialize(d, tree)
+        before = common.snapshot(d, exclude=())
+        ref = None
+        for t in thread_counts:
+            for rep in range(repeats):
+                rc, so, se = common.cli(args + ["--output", "json", "--no-auto-init"], d, env={"RAYON_NUM_THREADS": str(t)})
+                tag = {"threads": t, "repeat": rep}
+                if rc != 0:
+                    return {"what": "command failed", "run": tag, "rc": rc, "stderr": se.decode("utf-8", "replace")[-300:]}
+                try:
+                    out = canon(json.loads(so))
+                except ValueError:
+                    return {"what": "stdout is not JSON", "run": tag}
+                if ref is None:
+                    ref = (tag, out)
+                elif out != ref[1]:
+                    a, b = _first_diff(ref[1], out)
+                    return {"what": "two runs on the same tree and arguments report different plans",
+                            "run_a": ref[0], "a": a, "run_b": tag, "b": b,
+                            "paths_a": [p_.get("path") for p_ in ref[1].get("plan", {}).get("paths", [])][:12],
+                            "paths_b": [p_.get("path") for p_ in out.get("plan", {}).get("paths", [])][:12]}
+        if common.snapshot(d, exclude=()) != before:
+            return {"what": "tree changed by a dry run"}
+        n_paths = len(ref[1].get("plan", {}).get("paths", [])) if ref else 0
+    return {"ok": True, "renames": n_paths}
+
+
 def grow_tree(rng, sw, target):
     """gen.gen_tree stops early most of the time: put several of them side by side until `target` entries exist"""
     tree = gen.gen_tree(rng, sw, depth=4, max_entries=target, p_term_name=0.5)
@@ -507,6 +575,40 @@ def run(ctx):
     if conf_cases:
         ctx.sample({"op": "confusable", "args": conf_cases[0][2], "groups": conf_cases[0][1]})
 
+    # ---- several explicit search roots -------------------------------------------------------------
+    mthreads = [1, 8] if quick else [1, 2, 4, 8, 16]
+    mrepeats = 6 if quick else 8
+    mcases = []
+    for mi in range(2 if quick else 6):
+        sw, rw = gen.pick_terms(rng, 2, 2)
+        tree, pathsets = multiroot_tree(rng, sw)
+        Sx, Rx = gen.render("snake", sw), gen.render("snake", rw)
+        chosen = pathsets if not quick else [pathsets[0], rng.choice(pathsets[2:])]
+        for ps in chosen:
+            mcases.append((tree, ["plan", Sx, Rx, "--dry-run"] + ps))
+
+    def mwork(c):
+        return multiroot_case(c[0], c[1], mthreads, mrepeats)
+    with concurrent.futures.ThreadPoolExecutor(max_workers=4) as ex:
+        mresults = list(ex.map(mwork, mcases))
+    for (tree, args), res in zip(mcases, mresults):
+        ctx.case(("multiroot", tuple(args), tuple(sorted(tree))), nontrivial=bool(res.get("renames")))
+        ctx.count("multiroot:roots=%d" % (len(args) - 4))
+        if res.get("ok"):
+            ctx.count("multiroot_renames", res["renames"])
+            continue
+        if res["what"] == "command failed":
+            ctx.count("multiroot_refused")
+            ctx.notes.append(f"multiroot {' '.join(args)}: {res}")
+            continue
+        case = {"family": "multiroot", "tree": common.tree_dump(gen.tree_to_snap(tree)), "args": args,
+                "threads": mthreads, "repeats": mrepeats}
+        ctx.violation("input", case, expected="the same plan document, including the order of `paths`, from every process", observed=res,
+                      note="several search roots; separate processes (the order must not depend on a per-process hash seed)")
+        return
+    if mcases:
+        ctx.sample({"op": "multiroot", "args": mcases[0][1], "result": mresults[0]})
+
     # ---- previews ------------------------------------------------------------------------------
     pthreads = [1, 8] if quick else [1, 3, 16]
     done = set()
@@ -554,6 +656,12 @@ def replay(ctx, path):
     ok, msg = common.cargo_build()
     if not ok:
         ctx.broke("build", "cargo", msg)
+        return
+    if isinstance(case, dict) and case.get("family") == "multiroot":
+        res = multiroot_case(common.tree_undump(case["tree"]), case["args"], case.get("threads", [1, 8]), case.get("repeats", 8))
+        print(json.dumps(res, indent=1, default=str)[:3000])
+        if not res.get("ok"):
+            ctx.violation("input", case, expected=obj.get("expected"), observed=res)
         return
     if isinstance(case, dict) and case.get("family") == "confusable":
         tree = common.tree_undump(case["tree"])
